@@ -535,6 +535,38 @@ inline Board synth(Rng& rng, int t, long* rejected = nullptr)
     }
 }
 
+// A double push that gives check with the pawn itself where capturing it en passant is the ONLY legal reply
+// (mate/stalemate predicates must say "neither"). Rejection sampling on the oracle; returns false if none was found.
+inline bool only_ep_evasion(Rng& rng, Board& out, int max_tries = 4000)
+{
+    for (int t = 0; t < max_tries; ++t)
+    {
+        Board b;
+        b.stm = rng.below(2);
+        int us = b.stm, them = 1 - us;
+        int f = int(rng.below(8));
+        add_ep(rng, b, f, 1 + int(rng.below(3)));
+        int pr = them == orc::WHITE ? 3 : 4;           // rank of the pushed pawn
+        int kr = pr + (them == orc::WHITE ? 1 : -1);   // the pawn attacks diagonally forward
+        int kf = f + (rng.below(2) ? 1 : -1);
+        if (!orc::on_board(kf, kr) || !put(b, orc::sq_of(kf, kr), orc::make_pc(us, orc::KING))) continue;
+        // cover the flight squares with heavy pieces, keep the capturing pawn(s) free to take
+        for (int i = 2 + int(rng.below(3)); i > 0; --i) put(b, rng.below(64), orc::make_pc(them, rng.below(2) ? orc::QUEEN : orc::ROOK));
+        if (rng.below(2)) put(b, rng.below(64), orc::make_pc(them, orc::KNIGHT));
+        put_kings(rng, b);
+        if (!b.retro_legal() || !promotions_stay_in_domain(b)) continue;
+        std::vector<Move> legal = b.legal();
+        if (legal.empty()) continue;
+        bool all_ep = true;
+        for (const Move& m : legal)
+            if (!b.is_ep(m)) all_ep = false;
+        if (!all_ep) continue;
+        out = b;
+        return true;
+    }
+    return false;
+}
+
 // ---------------------------------------------------------------- features (for coverage tables)
 
 struct Features
